@@ -15,6 +15,7 @@ def run(tier, seed):
     run_fragments(rep, [lists.BoundedListC()], tier,
                   only_cfg=lambda c, cfg: bool(cfg.get('user_sorts')) and cfg.get('regime') != 'max<min')
     from . import wiring
+    wiring.a_subst_obligations(rep, tier)
     wiring.closure_obligations(rep, tier)
     wiring.class_compile_obligations(rep, tier)
     wiring.ref_resolution_obligations(rep, tier)
